@@ -250,7 +250,8 @@ func (s *Session) Run(ctx context.Context, dir string, args ...string) error {
 						log.Printf("ignoring %s", line)
 						continue
 					} else {
-						for _, output := range iop.OutputSet {
+						for i := range iop.OutputSet {
+							output := &iop.OutputSet[i]
 							if output.Bindingss != nil {
 								continue
 							}
